@@ -90,6 +90,15 @@ def judge_c04(s, r):
             return "reject files hold %d hunks, %d were reported as failed/ignored" % (total, failed_reported)
         if failed_reported == 0 and new_rejs:
             return "reject file written although no hunk failed"
+        # a hunk saved in context form holds its changed lines ('!') on both sides or on neither: one side alone is a hunk nobody reads
+        for p_, d_ in new_rejs.items():
+            if d_.startswith(b"*** "):
+                for hk in re.split(rb"^\*{15}\n", d_, flags=re.M)[1:]:
+                    halves = re.split(rb"^--- \d+(?:,\d+)? ----\n", hk, flags=re.M)
+                    if len(halves) == 2:
+                        o_bang = bool(re.search(rb"^! ", halves[0], flags=re.M)); n_bang = bool(re.search(rb"^! ", halves[1], flags=re.M))
+                        if o_bang != n_bang:
+                            return "reject file %s: a hunk in context form has changed ('!') lines on one side only: the failed change is not saved in a form that can be read" % p_
     return None
 
 
